@@ -470,6 +470,8 @@ def gen_history(rng, thorough, step):
             c, exposure = gen_class(rng, decls, env, name, parent, assoc if attempt == 0 else passoc if parent else assoc)
             if nm(rng, 0.04) and parent is None and i + 1 < n_classes:
                 c['sup'] = rng.choice(['NoSuch', names[i + 1]])      # near miss: superclass that does not exist (yet)
+            elif nm(rng, 0.03) and parent is None:
+                c['sup'] = ''                                        # near miss: empty superclass name
             opname = 'create' if rng.random() < 0.6 else 'add'
             out = emit({'op': opname, 'c': c})
             rng.nz = 1.0
@@ -489,8 +491,8 @@ def gen_history(rng, thorough, step):
             ln = rng.choice(leafs if leafs and rng.random() < 0.8 else env.order)
             e = env.classes[ln]
             c2, exp2 = gen_class(rng, decls, env, rc(rng, e['name']), e['sup'], e['assoc'])
-            if nm(rng, 0.1):
-                c2['sup'] = rng.choice([None, 'NoSuch', some_class(rng, env)])
+            if nm(rng, 0.12):
+                c2['sup'] = rng.choice([None, 'NoSuch', '', c2['n'], some_class(rng, env)])
             out = emit({'op': 'modify', 'c': c2})
             if 'ok' in out:
                 exp2['name'] = c2['n']
@@ -906,6 +908,17 @@ def oracle(run, decls, ops, outs, final_names, final_insts, toklist, case):
                 if f['lo'] is False and f['iq'] is not False and f['ico'] is True and f['pl'] is None:
                     check_full_class(run, sh, ln, k, case, tokens)
                 subset_of(run, f, k, out['full'], case)
+                if f['lo'] is not False and f['pl'] is None and ln in sh.cls:
+                    # LocalOnly must keep what the class declares itself
+                    pl_ = sh.parent(ln)
+                    P = sh.exposed(pl_) if pl_ else None
+                    for kind in ('props', 'meths'):
+                        got = {fcps(e['n']).lower() for e in k[kind]}
+                        for e in sh.cls[ln][kind]:
+                            if e['n'].lower() not in got:
+                                run.violate({'kind': 'localonly_drops_declared_element',
+                                             'overrides': bool(P and e['n'].lower() in P[kind])}, case,
+                                            {'class': ln, 'item': e['n']})
         elif o in ('enumNames', 'enumClasses'):
             cn = op['cn']
             if cn is not None and not known(cn):
@@ -1123,9 +1136,10 @@ def search(run):
     known = common.load_known_all()
     before = len(run.violations)
     rng = run.rng
-    for i in range(6000):
-        decls, ops, req, outs, names, insts, toklist = _work((rng.getrandbits(48), True))
-        judge(run, decls, ops, outs, names, insts, toklist)
+    for batch in range(6):
+        res = common.pmap(_work, [(rng.getrandbits(48), True) for _ in range(700)], chunksize=16)
+        for decls, ops, req, outs, names, insts, toklist in res:
+            judge(run, decls, ops, outs, names, insts, toklist)
         new = [v for v in run.violations[before:] if not any(common.matches(f, PROP, v['sig']) for f in known)]
         if new:
             return new
